@@ -1201,3 +1201,123 @@ func TestCLIFailingAlignment(t *testing.T) {
 		return o, nil
 	})
 }
+
+// ---- command line: bootstrap distance matrices (cmd/distboot.go), one model object for every replicate -----
+
+type bootCase struct {
+	Rows    []string        `json:"rows"`
+	Opt     refdist.Options `json:"opt"`
+	N       int             `json:"n"`
+	Seed    int             `json:"seed"`
+	Half    bool            `json:"half"` // -f 0.5: partial bootstrap
+	ToFile  bool            `json:"to_file"`
+	Layout  cli.Layout      `json:"layout"`
+	Threads []int           `json:"threads"`
+}
+
+// TestCLIDistBoot: goalign build distboot -m <model> -n <k> --seed <s> [-r] [--alpha a] [-f 0.5] [-o file] -t <T>
+// prints k well formed matrices (the rows of the alignment, symmetric, zero diagonal, no negative entry) and
+// prints the same bytes for every -t: the bootstrap sample depends on the seed only, the matrix of a sample
+// must not depend on the thread count, and the model object is the same for all replicates
+func TestCLIDistBoot(t *testing.T) {
+	if cli.Binary() == "" {
+		t.Skip("no goalign binary")
+	}
+	dir := cli.TempDir("c08boot")
+	pbt.Run(t, func(t *rapid.T) bootCase {
+		var c bootCase
+		c.Rows, _ = refdist.GenRows(t, 3, 12, 30, -1)
+		c.Opt = refdist.GenOptions(t, len(c.Rows), len(c.Rows[0]), false, false)
+		if c.Opt.Model == refdist.Raw {
+			c.Opt.Model = refdist.PDist // the models the command documents
+		}
+		c.Opt.GapMut, c.Opt.RmAmbiguous = 0, false // no such flags here
+		if !c.Opt.Gamma {
+			c.Opt.Alpha = 0
+		}
+		c.N = rapid.IntRange(1, 4).Draw(t, "replicates")
+		c.Seed = rapid.IntRange(0, 1000).Draw(t, "seed")
+		c.Half = rapid.IntRange(0, 3).Draw(t, "half") == 2
+		c.ToFile = rapid.Bool().Draw(t, "to-file")
+		c.Layout = cli.DrawLayout(t)
+		c.Threads = []int{1, rapid.SampledFrom([]int{2, 3, 4}).Draw(t, "threads"), rapid.SampledFrom([]int{8, 16, 32}).Draw(t, "many-threads")}
+		return c
+	}, func(c bootCase) (o pbt.Outcome, err error) {
+		ali := distrun.Ali(c.Rows)
+		in := cli.TempFile(dir, ".fa", cli.FastaLayout(ali.Rows, c.Layout))
+		defer os.Remove(in)
+		var first string
+		for k, th := range c.Threads {
+			args := []string{"build", "distboot", "-i", in, "-m", c.Opt.Model, "-n", fmt.Sprint(c.N), "--seed", fmt.Sprint(c.Seed), "-t", fmt.Sprint(th)}
+			if c.Opt.RmGaps {
+				args = append(args, "-r")
+			}
+			if c.Opt.Gamma {
+				args = append(args, "--alpha", fmt.Sprint(c.Opt.Alpha))
+			}
+			if c.Half {
+				args = append(args, "-f", "0.5")
+			}
+			out := ""
+			if c.ToFile {
+				out = in + ".boot"
+				args = append(args, "-o", out)
+				if k == 1 {
+					cli.StaleFile(out, 300) // an existing output file is replaced
+				}
+			}
+			r := cli.Run("", args...)
+			if r.TimedOut || r.Exit != 0 {
+				return o, fmt.Errorf("goalign %v: exit %d (timed out %v), stderr %q", args, r.Exit, r.TimedOut, r.Stderr)
+			}
+			text := r.Stdout
+			if c.ToFile {
+				b, e := os.ReadFile(out)
+				os.Remove(out)
+				if e != nil {
+					return o, fmt.Errorf("goalign %v: output file not written: %v", args, e)
+				}
+				text = string(b)
+			}
+			if k == 0 {
+				first = text
+				names, mats, perr := distrun.ParseMatrices(text)
+				if perr != nil || len(mats) != c.N {
+					return o, fmt.Errorf("goalign %v: -n %d but the output is not %d matrices (%v):\n%s", args, c.N, c.N, perr, text)
+				}
+				for m := range mats {
+					if len(mats[m]) != len(c.Rows) {
+						return o, fmt.Errorf("goalign %v: replicate %d has %d rows for %d sequences", args, m+1, len(mats[m]), len(c.Rows))
+					}
+					for i := range mats[m] {
+						if names[m][i] != ali.Rows[i].Name {
+							return o, fmt.Errorf("goalign %v: replicate %d row %d is named %q", args, m+1, i, names[m][i])
+						}
+						for j := range mats[m][i] {
+							a, b := mats[m][i][j], mats[m][j][i]
+							if i == j && a != 0 || !sameBits(a, b) || a < 0 {
+								return o, fmt.Errorf("goalign %v: replicate %d entries [%d][%d] = %v, [%d][%d] = %v", args, m+1, i, j, a, j, i, b)
+							}
+						}
+					}
+					o.NonTrivial = o.NonTrivial || hasFiniteNonZero(mats[m])
+				}
+				continue
+			}
+			if text != first {
+				return o, fmt.Errorf("goalign %v prints other bytes than with -t %d (same --seed):\n%s\nagainst\n%s", args, c.Threads[0], text, first)
+			}
+		}
+		o.Class("model=%s", c.Opt.Model)
+		if c.Opt.RmGaps {
+			o.Class("rm-gaps")
+		}
+		if c.Half {
+			o.Class("partial bootstrap")
+		}
+		if c.ToFile {
+			o.Class("output-file")
+		}
+		return o, nil
+	})
+}
